@@ -39,7 +39,8 @@ theorem growCaps_ok : ∀ (fuel cap need : Nat), 1 ≤ cap → need ≤ fuel + c
     intro cap need h1 h2
     by_cases hn : need > cap
     · obtain ⟨caps, hc, hp, hl⟩ := ih (growFactor * cap) need (by simp [growFactor]; omega) (by simp [growFactor]; omega)
-      refine ⟨growFactor * cap :: caps, by simp [growCaps, hn, hc, bind, Except.bind], ?_, by simpa [lastCap] using hl⟩
+      have hgrow : ¬ (growFactor * cap ≤ cap) := by simp [growFactor]; omega
+      refine ⟨growFactor * cap :: caps, by simp [growCaps, hn, hgrow, hc, bind, Except.bind], ?_, by simpa [lastCap] using hl⟩
       have hp' := hp
       rw [List.pairwise_cons] at hp ⊢
       refine ⟨?_, hp'⟩
